@@ -116,6 +116,73 @@ pub fn probe_malformed(which: u32) -> bool {
     }
 }
 
+// ---- group `protodec` (C04): arbitrary bytes through the real ProtobufReader for every zoo type: Ok or Err, no panic, no hang
+
+fn decode_kind(kind: u32, b: &[u8]) {
+    match kind {
+        0 => { let _ = ProtobufReader::from(b).read::<PNums>(); }
+        1 => { let _ = ProtobufReader::from(b).read::<PSettings>(); }
+        2 => { let _ = ProtobufReader::from(b).read::<PEnvelope>(); }
+        3 => { let _ = ProtobufReader::from(b).read::<PBatch>(); }
+        4 => { let _ = ProtobufReader::from(b).read::<PChoice>(); }
+        5 => { let _ = ProtobufReader::from(b).read::<PEnum>(); }
+        6 => { let _ = ProtobufReader::from(b).read::<PHolder>(); }
+        7 => { let _ = ProtobufReader::from(b).read::<PBits>(); }
+        _ => { let _ = ProtobufReader::from(b).read::<PList>(); }
+    }
+}
+
+/// v = [kind], b = [bytes]
+pub fn run_dec(i: &Input) -> Result<(), String> {
+    use std::sync::mpsc;
+    let kind = i.v[0] as u32;
+    let bytes = i.b[0].clone();
+    let (tx, rx) = mpsc::channel();
+    std::thread::spawn(move || {
+        let r = std::panic::catch_unwind(|| decode_kind(kind, &bytes));
+        let _ = tx.send(r.is_err());
+    });
+    match rx.recv_timeout(std::time::Duration::from_secs(5)) {
+        Ok(false) => Ok(()),
+        Ok(true) => Err("the protobuf reader panicked".into()),
+        Err(_) => Err("the protobuf reader did not return within 5 s (hang)".into()),
+    }
+}
+
+fn valid_bytes(g: &mut Gen, kind: u32) -> Vec<u8> {
+    let mut w = ProtobufWriter::default();
+    let _ = match kind {
+        0 => w.write(&PNums { a: -5, b: 1 << 31, c: 7, d: 9, e: 1 << 32, f: -128, g: 255, h: -1 }),
+        1 => w.write(&g.settings(true)),
+        2 => w.write(&PEnvelope { settings: g.settings(true), seq: 77, comment: "comment".to_string() }),
+        3 => w.write(&PBatch { entries: (0..g.n(3)).map(|_| g.settings(true)).collect(), sealed: true, nums: vec![1, 2, 3], tail: Some(g.settings(false)), last: 5 }),
+        4 => w.write(&g.choice()),
+        5 => w.write(&PEnum::Two),
+        6 => w.write(&PHolder { pick: g.choice(), kind: PEnum::Three, more: vec![g.choice(), g.choice()] }),
+        7 => w.write(&PBits { b: BitVec::from_all_bytes(vec![0xF0, 0x0F]) }),
+        _ => w.write(&PList(vec![1, 2, 3])),
+    };
+    w.as_bytes().to_vec()
+}
+
+pub fn search_dec(seed: u64, budget: u64, try_one: &mut dyn FnMut(Input) -> bool) {
+    let mut g = Gen(seed.wrapping_mul(0x9E3779B97F4A7C15) ^ 0xABCDEF);
+    for k in 0..budget.min(6000) {
+        let kind = (k % 9) as u32;
+        let mut bytes = if g.n(3) == 0 { (0..g.n(12)).map(|_| g.n(256) as u8).collect() } else { valid_bytes(&mut g, kind) };
+        match g.n(5) {
+            0 if !bytes.is_empty() => { let p = g.n(bytes.len() as u64) as usize; bytes[p] ^= 1 << g.n(8); }
+            1 if !bytes.is_empty() => { let p = g.n(bytes.len() as u64) as usize; bytes.truncate(p); }
+            2 if !bytes.is_empty() => { let p = g.n(bytes.len() as u64) as usize; bytes[p] = [0x7F, 0xFF, 0x80, 0x0A, 0x00][g.n(5) as usize]; }
+            3 => { let p = g.n(bytes.len() as u64 + 1) as usize; bytes.insert(p, g.n(256) as u8); }
+            _ => {}
+        }
+        if try_one(Input::new("proto_dec").v(kind).b(&bytes)) {
+            return;
+        }
+    }
+}
+
 pub fn search(budget: u64, try_one: &mut dyn FnMut(Input) -> bool) {
     for seed in 0..(budget / 7).min(1500) {
         for kind in 0..7 {
